@@ -159,6 +159,19 @@ func (e *Eng) specBuiltin(x *ast.CallExpr, c *ctx) (Val, bool) {
 		case "off":
 			v := e.eval(x.Args[0], c)
 			return Val{K: KInt, T: v.Off, GoT: types.Typ[types.Int]}, true
+		case "fresh":
+			// fresh(x): x was allocated after the pre-state of this contract (during the call, for a
+			// callee's postcondition; by this function, in its own verification): it is below the
+			// allocation frontier of that state
+			if c.old == nil {
+				panic("spec: fresh() without pre-state")
+			}
+			v := e.eval(x.Args[0], c)
+			t := v.T
+			if v.K == KSlice {
+				t = v.Ref
+			}
+			return Val{K: KBool, T: "(< " + t + " " + c.old.front() + ")"}, true
 		case "isnil":
 			v := e.eval(x.Args[0], c)
 			if v.K == KSlice {
